@@ -612,7 +612,7 @@ impl Formatter {
           // can only be part of a text run if they were escaped
           let mut out = String::new();
           for c in n.to_string().chars() {
-            if matches!(c, '\\' | '*' | '_' | '`' | '~' | '[' | '|') { out.push('\\'); }
+            if matches!(c, '\\' | '*' | '_' | '`' | '~' | '|') { out.push('\\'); }
             out.push(c);
           }
           out
